@@ -1,4 +1,5 @@
 import PallasVerif.Proofs.P2PSync
+import PallasVerif.Model.P2PDomain
 /-! C28, wider domain: `Sent` confirmations, arrivals at the responder, replies and deliveries may be
     delayed arbitrarily, as long as (a) no step queues a `Send` of protocol X for a connection that
     still has an unconfirmed `Send` of X (the complement is the known finding) and (b) a reply of
@@ -584,13 +585,6 @@ theorem gen_run : ∀ (sched : List Sched) {y y' : Sys}, GenInv y → InDomain y
 
 /-! ### a computable domain check (for examples and for classifying schedules) -/
 
-def protoFree (u : List Msg) (m : Msg) : Bool := u.all (fun m' => decide (m'.proto ≠ m.proto))
-
-def emitOKb (y : Sys) (outs : List Out) : Bool :=
-  outs.all (fun o => match o with
-    | .send p m => (match y.links p with | .up l => protoFree l.unconfirmed m | _ => true)
-    | _ => true)
-
 theorem emitOKb_sound {y : Sys} {outs : List Out} (h : emitOKb y outs = true) : EmitOK y outs := by
   intro p l hl m hm m' hm'
   have hmem := mem_sendsTo.mp hm
@@ -600,31 +594,11 @@ theorem emitOKb_sound {y : Sys} {outs : List Out} (h : emitOKb y outs = true) : 
   simp only [hl, protoFree, List.all_eq_true, decide_eq_true_eq] at this
   exact this m' hm'
 
-def feedOKb (y : Sys) (e : Ev) : Bool :=
-  match step y.st e with
-  | none => true
-  | some f => emitOKb y f.out
-
 theorem feedOKb_sound {y : Sys} {e : Ev} (h : feedOKb y e = true) : FeedOK y e := by
   intro f hf
   unfold feedOKb at h
   rw [hf] at h
   exact emitOKb_sound h
-
-def ordOKb : Ev → Bool
-  | .housekeeping ord _ => decide ord.Nodup
-  | .idle ord _ => decide ord.Nodup
-  | _ => true
-
-def stepOKb (y : Sys) : Sched → Bool
-  | .ev e => ordOKb e && feedOKb y e
-  | .connect p => feedOKb { y with links := setLink y.links p (.up {}) } (.connected p)
-  | .fail p => feedOKb y (.error p)
-  | .deliver p n =>
-    (match y.links p with
-     | .up l => (l.toInit.take (n + 1)).all (fun m => protoFree l.unconfirmed m)
-     | _ => true)
-  | _ => true
 
 theorem stepOKb_sound {y : Sys} {a : Sched} (h : stepOKb y a = true) : StepOK y a := by
   cases a with
@@ -642,10 +616,6 @@ theorem stepOKb_sound {y : Sys} {a : Sched} (h : stepOKb y a = true) : StepOK y 
   | arrive p => trivial
   | reply p x k => trivial
   | drop p => trivial
-
-def inDomainB : Sys → List Sched → Bool
-  | _, [] => true
-  | y, a :: as => stepOKb y a && (match sysStep y a with | none => true | some y1 => inDomainB y1 as)
 
 theorem inDomainB_sound : ∀ (sched : List Sched) (y : Sys), inDomainB y sched = true → InDomain y sched := by
   intro sched
